@@ -79,6 +79,26 @@ func snapshot(path string, cfg MCfg, mp Mapping) sfile {
 	return sfile{Cfg: &c, Sp: mp.sparseOf(rings)}
 }
 
+// the text a command printed, as records; text that cannot be read as records (e.g. cut off in the middle of a line) is an
+// observation the specification rejects (field parse_error of the next emitted line), not a failure of the driver
+var outParseErr string
+
+func parseOut(text string, mp Mapping) []rec {
+	got, _, err := parsePointLines(text, mp)
+	if err != nil {
+		outParseErr = err.Error()
+	}
+	// a line cut off after some of its fields has fewer values than the others
+	for i := range got {
+		if len(got[i].V) != len(got[0].V) {
+			outParseErr = fmt.Sprintf("record %d has %d value fields, record 0 has %d (the output is cut off)", i, len(got[i].V), len(got[0].V))
+			got = got[:i]
+			break
+		}
+	}
+	return got
+}
+
 func recsJSON(rs []rec, mp Mapping) [][]interface{} {
 	out := make([][]interface{}, 0, len(rs))
 	for _, r := range rs {
@@ -142,6 +162,7 @@ func createFile(path string, cfg MCfg) {
 
 func (d *cliDriver) oneCase(seed int64, id int) {
 	preStateUnrep = false
+	outParseErr = ""
 	rnd := rand.New(rand.NewSource(seed*7919 + int64(id)))
 	lay := cliLayouts[rnd.Intn(len(cliLayouts))]
 	method := drvMethods[rnd.Intn(len(drvMethods))]
@@ -330,6 +351,10 @@ func (d *cliDriver) oneCase(seed int64, id int) {
 		for k2, v := range extra {
 			m[k2] = v
 		}
+		if outParseErr != "" {
+			m["parse_error"] = outParseErr
+			outParseErr = ""
+		}
 		d.emit(m)
 	}
 	filesOf := func(it itemT) []sfile {
@@ -427,27 +452,22 @@ func (d *cliDriver) oneCase(seed int64, id int) {
 			}
 			c := &cmd.DiffCommand{SrcBase: e.srcBase, SrcRelPath: "item*/s1.wsp", DestBase: e.destBase, From: from, Until: until, ArchiveID: arch}
 			res := e.runCmd(c, &c.TextOut)
-			got, _, err := parsePointLines(res.Text, mp)
-			if err != nil {
-				panic(err)
-			}
+			got := parseOut(res.Text, mp)
 			line("diffglob", map[string]interface{}{"pairs": pairs, "k": res.Class, "msg": res.Msg, "recs": recsJSON(got, mp)})
 			break
 		}
 		it := items[0]
 		c := &cmd.DiffCommand{SrcBase: e.srcBase, SrcRelPath: "item1/s1.wsp", DestBase: e.destBase, DestRelPath: "item1/d.wsp", From: from, Until: until, ArchiveID: arch}
 		res := e.runCmd(c, &c.TextOut)
-		got, _, err := parsePointLines(res.Text, mp)
-		if err != nil {
-			panic(err)
-		}
+		got := parseOut(res.Text, mp)
 		line("diff", map[string]interface{}{"src": snapshot(it.srcs[0], srcCfg(it.srcs[0]), mp), "dst": snapshot(it.dst, it.dcfg, mp), "k": res.Class, "msg": res.Msg, "recs": recsJSON(got, mp)})
 		// a file missing on the destination side, the destination being a server: still a reported difference
 		if d.srv == nil || !d.srv.alive() {
 			d.srv.stop()
-			d.srv, err = startServer(d.root)
-			if err != nil {
-				panic(err)
+			var serr error
+			d.srv, serr = startServer(d.root)
+			if serr != nil {
+				panic(serr)
 			}
 		}
 		if sel <= k && (u == 0 || f <= u) {
@@ -460,10 +480,7 @@ func (d *cliDriver) oneCase(seed int64, id int) {
 		it := items[0]
 		c := &cmd.SumCommand{SrcBase: e.srcBase, ItemPattern: "item1", SrcPattern: "s*.wsp", From: from, Until: until, ArchiveID: arch, ShowHeader: false}
 		res := e.runCmd(c, &c.TextOut)
-		got, _, err := parsePointLines(res.Text, mp)
-		if err != nil {
-			panic(err)
-		}
+		got := parseOut(res.Text, mp)
 		line("sum", map[string]interface{}{"files": filesOf(it), "k": res.Class, "msg": res.Msg, "recs": recsJSON(got, mp)})
 		// an item several directories deep, reached through an item glob (item names use dots for directory separators)
 		nested := filepath.Join(e.srcBase, "dc1", "web", "cpu")
@@ -474,26 +491,21 @@ func (d *cliDriver) oneCase(seed int64, id int) {
 		}
 		c2 := &cmd.SumCommand{SrcBase: e.srcBase, ItemPattern: []string{"dc1/*/cpu", "dc1/web/cpu", "dc?/w*/c[op]u"}[rnd.Intn(3)], SrcPattern: "s*.wsp", From: from, Until: until, ArchiveID: arch, ShowHeader: false}
 		res = e.runCmd(c2, &c2.TextOut)
-		got, _, err = parsePointLines(res.Text, mp)
-		if err != nil {
-			panic(err)
-		}
+		got = parseOut(res.Text, mp)
 		line("sum", map[string]interface{}{"files": filesOf(it), "k": res.Class, "msg": res.Msg, "recs": recsJSON(got, mp), "item": "nested"})
 		// the same sum through a server
 		if d.srv == nil || !d.srv.alive() {
 			d.srv.stop()
-			d.srv, err = startServer(d.root)
-			if err != nil {
-				panic(err)
+			var serr error
+			d.srv, serr = startServer(d.root)
+			if serr != nil {
+				panic(serr)
 			}
 		}
 		relBase, _ := filepath.Rel(d.root, e.srcBase)
 		c3 := &cmd.SumCommand{SrcBase: d.srv.url, ItemPattern: filepath.Join(relBase, "item1"), SrcPattern: "s*.wsp", From: from, Until: until, ArchiveID: arch, ShowHeader: false}
 		res = e.runCmd(c3, &c3.TextOut)
-		got, _, err = parsePointLines(res.Text, mp)
-		if err != nil {
-			panic(err)
-		}
+		got = parseOut(res.Text, mp)
 		line("sum", map[string]interface{}{"files": filesOf(it), "k": res.Class, "msg": res.Msg, "recs": recsJSON(got, mp), "via": "http"})
 	case "C11":
 		if glob {
@@ -508,10 +520,7 @@ func (d *cliDriver) oneCase(seed int64, id int) {
 			}
 			sd := &cmd.SumDiffCommand{SrcBase: e.srcBase, ItemPattern: "item*", SrcPattern: "s*.wsp", DestBase: e.destBase, DestRelPath: "d.wsp", From: from, Until: until, ArchiveID: arch}
 			res := e.runCmd(sd, &sd.TextOut)
-			got, _, err := parsePointLines(res.Text, mp)
-			if err != nil {
-				panic(err)
-			}
+			got := parseOut(res.Text, mp)
 			line("sumdiffglob", map[string]interface{}{"items": its, "k": res.Class, "msg": res.Msg, "recs": recsJSON(got, mp)})
 			// sum-copy over all items, then every destination holds its item's sum
 			pres := make([]sfile, len(items))
@@ -562,10 +571,7 @@ func (d *cliDriver) oneCase(seed int64, id int) {
 		base["sumrecs"] = recsJSON(sgot, mp)
 		sd := &cmd.SumDiffCommand{SrcBase: e.srcBase, ItemPattern: "item1", SrcPattern: "s*.wsp", DestBase: e.destBase, DestRelPath: "d.wsp", From: from, Until: until, ArchiveID: arch}
 		res := e.runCmd(sd, &sd.TextOut)
-		got, _, err := parsePointLines(res.Text, mp)
-		if err != nil {
-			panic(err)
-		}
+		got := parseOut(res.Text, mp)
 		line("sumdiff", map[string]interface{}{"files": files, "dst": pre, "k": res.Class, "msg": res.Msg, "recs": recsJSON(got, mp)})
 		c := &cmd.SumCopyCommand{SrcBase: e.srcBase, DestBase: e.destBase, ItemPattern: "item1", SrcPattern: "s*.wsp", DestRelPath: "d.wsp",
 			AggregationMethod: methodOf(cfg.Method), XFilesFactor: xffFloat(cfg.Xff), ArchiveInfoList: archiveInfoList(cfg), From: from, Until: until, ArchiveID: arch}
@@ -605,18 +611,12 @@ func (d *cliDriver) oneCase(seed int64, id int) {
 		src := snapshot(it.srcs[0], srcCfg(it.srcs[0]), mp)
 		c := &cmd.ViewCommand{SrcBase: e.srcBase, SrcRelPath: "item1/s1.wsp", From: from, Until: until, ArchiveID: arch, ShowHeader: rnd.Intn(2) == 0}
 		res := e.runCmd(c, &c.TextOut)
-		got, _, err := parsePointLines(res.Text, mp)
-		if err != nil {
-			panic(err)
-		}
+		got := parseOut(res.Text, mp)
 		line("view", map[string]interface{}{"src": src, "k": res.Class, "msg": res.Msg, "recs": recsJSON(got, mp)})
 		sorted := rnd.Intn(2) == 0
 		vr := &cmd.ViewRawCommand{SrcBase: e.srcBase, SrcRelPath: "item1/s1.wsp", From: from, Until: until, ArchiveID: arch, ShowHeader: false, SortsByTime: sorted}
 		res = e.runCmd(vr, &vr.TextOut)
-		got, _, err = parsePointLines(res.Text, mp)
-		if err != nil {
-			panic(err)
-		}
+		got = parseOut(res.Text, mp)
 		line("viewraw", map[string]interface{}{"src": src, "sorted": sorted, "k": res.Class, "msg": res.Msg, "recs": recsJSON(got, mp)})
 	}
 	_ = tout
